@@ -226,7 +226,7 @@ class BulkInSpec(Spec):
         # ---- the ideal host
         if outcome == "datalost":
             self.cover["data-lost"] += 1
-            return (hacc, hexp, sent, dacc, dzlp, None if unacked is None else since, 0)
+            return (hacc, hexp, sent, dacc, dzlp, None, 0)
         if tog == hexp:
             if payload != tags[hacc:hacc + n]:
                 raise Violation("stream:host-accepts-wrong-data", dict(packet=payload, expected=tags[hacc:hacc + n], accepted=hacc))
@@ -237,12 +237,11 @@ class BulkInSpec(Spec):
             self.cover["duplicate-discarded-by-host"] += 1
         if outcome == "acklost":
             self.cover["ack-lost"] += 1
-            return (hacc, hexp, sent, dacc, dzlp, None if unacked is None else since, 0)
+            return (hacc, hexp, sent, dacc, dzlp, None, 0)
         host.send(cur, U.handshake(U.ACK), False)
         dacc += n
         dzlp = 1 if (n == mps and (dacc - 1) in prod.lasts) else 0
-        if hacc != dacc:
-            raise Violation("stream:host-and-device-disagree-after-ack", dict(host_accepted=hacc, device_acked=dacc))
+        assert hacc == dacc, "reference model: after a delivered ACK host and device agree"
         return (hacc, hexp, None, dacc, dzlp, None, 0)
 
 
